@@ -3,11 +3,13 @@ from ..core import Anchor
 from ..tree import Cfg, mir_name, path_of, show, show_stmt, sites, unblock, walk, where
 
 EXPLANATION = (
-    "Control-flow rules on the type-checked MIR of Parser::parse (dominators, reachability, value flow of each callback's "
-    "result): who-may-call census of the four Consumer callbacks over the whole crate (resolved callees), every callback result "
-    "flows through Action::consume and `?` with no callback reachable from the error edge, protocol order by dominance, finalize "
-    "reachable only through the edge taken when parse_inst's error is State::Complete; plus the Action::consume table, the single "
-    "construction site of State::Complete and its path condition, and the shape of load_bytes/load_words, from the syntax tree.")
+    "Who-may-call census of the four Consumer callbacks over the whole crate (resolved MIR callees: one call site each, in "
+    "Parser::parse); Parser::parse evaluated (rule engine's evaluator of the expanded syntax tree) against scripted consumers - every "
+    "callback position answering continue / stop / error - header results and instruction streams (none, two instructions, a parse "
+    "error at the first or second instruction): callbacks made and result must be exactly the protocol's; dominator rules on the MIR "
+    "control-flow graph give the order for streams of any length; the Action::consume table, the single construction site of "
+    "State::Complete and its path condition; load_bytes/load_words and parse_bytes/parse_words evaluated with the parse failing and "
+    "succeeding.")
 EXHAUSTIVE = True
 
 PAR = "rspirv::binary::parser"
